@@ -130,6 +130,63 @@ def ob_top_kind(kind):
     return h
 
 
+def ob_array():
+    """array option with choices: every element must be a choice, whichever spelling (list or comma string) and source"""
+    def h():
+        store = new_store()
+        k = O.OptionKey('arr')
+        store.add_system_option('arr', O.UserStringArrayOption('arr', 'x', ['c0'], choices=['c0', 'c1', 'c2']))
+        present = [sym_bool('p%d' % i) for i in range(3)]
+        dicts = [{}, {}, {}]; vals = [None] * 3
+        bad = False
+        for i in range(3):
+            if present[i]:
+                e1 = sym_enum(['c0', 'c1', 'c2', 'zz'], 'a%d' % i); e2 = sym_enum(['c1', 'c2', 'zz'], 'b%d' % i)
+                bad = sym_or(bad, e1 == 'zz', e2 == 'zz')
+                a, b = (e1.concretize() if hasattr(e1, 'concretize') else e1), (e2.concretize() if hasattr(e2, 'concretize') else e2)
+                vals[i] = [a, b]
+                dicts[i][k] = (a + ',' + b) if choose(2, 'comma%d' % i) else [a, b]
+        proj, mach, cmd = dicts
+        exp = ['c0']
+        for i in (0, 1, 2):
+            if dicts[i]: exp = vals[i]
+        try:
+            store.initialize_from_top_level_project_call(proj, cmd, mach)
+        except ME:
+            check(bad, 'MesonException only for an element outside the choices'); cover('rejected'); return
+        check(sym_not(mkbool(bt_any(bad))) if not isinstance(bad, bool) else not bad, 'an element outside the choices is always rejected')
+        got = store.get_value_for(k)
+        check(list(got) == list(exp), 'array value: command line > machine file > project default_options > default')
+        check(all(x in ('c0', 'c1', 'c2') for x in got), 'every stored element is a choice')
+        cover('accepted')
+    return h
+
+
+def ob_machine(is_cross):
+    """per-machine options: build.opt is a separate option in a cross build and is ignored (mapped to the host option) natively"""
+    def h():
+        from mesonbuild.mesonlib import MachineChoice
+        store = O.OptionStore(is_cross)
+        store.init_builtins()
+        kh = O.OptionKey('pkg_config_path'); kb = O.OptionKey('pkg_config_path', machine=MachineChoice.BUILD)
+        hv = sym_str(1, 'host_value', alphabet='ab'); bv = sym_str(1, 'build_value', alphabet='cd')
+        src = choose(3, 'source')
+        dicts = [{}, {}, {}]
+        give_h = decide(sym_bool('host_given')); give_b = decide(sym_bool('build_given'))
+        if give_h: dicts[src][kh] = [hv]
+        if give_b: dicts[src][kb] = [bv]
+        proj, mach, cmd = dicts
+        store.initialize_from_top_level_project_call(proj, cmd, mach)
+        goth = store.get_value_for(kh); gotb = store.get_value_for(kb)
+        check(eq(list(goth), [hv] if give_h else []), 'host option takes the host value')
+        if is_cross:
+            check(eq(list(gotb), [bv] if give_b else []), 'cross build: the build-machine option is separate')
+        else:
+            check(eq(list(gotb), list(goth)), 'native build: build-machine values are ignored, the build machine is the host')
+        cover('done')
+    return h
+
+
 PFX = ['/proj', '/usr', '/usr/local']
 
 
@@ -252,6 +309,9 @@ def obligations(tier):
     out = [Obligation('top/integer', ob_top_int(), dict(sources='2^3', values='-9..9 as int or 1-digit string', range='symbolic in -5..5'), labels=('accepted', 'rejected'), max_paths=2000000)]
     for kind in ('bool', 'combo', 'feature', 'string'):
         out.append(Obligation('top/' + kind, ob_top_kind(kind), dict(sources='2^3', kind=kind), labels=('accepted',) + (() if kind == 'string' else ('rejected',)), max_paths=2000000))
+    out.append(Obligation('top/array', ob_array(), dict(sources='2^3', elements='2 per source among choices + invalid', spelling='list | comma string'), labels=('accepted', 'rejected'), max_paths=2000000))
+    for cross in (False, True):
+        out.append(Obligation('per-machine/%s' % ('cross' if cross else 'native'), ob_machine(cross), dict(option='pkg_config_path / build.pkg_config_path', source='any of 3'), labels=('done',)))
     out.append(Obligation('top/prefix', ob_prefix(), dict(sources='2^3', prefixes=PFX), labels=('done',)))
     out.append(Obligation('top/buildtype', ob_buildtype(), dict(buildtype='all', source='any of 3', debug_opt='given or not'), labels=('done',)))
     for kind in ('system', 'project', 'yielding'):
